@@ -39,6 +39,14 @@ CHECKS = {
    technique="bounded-exhaustive enumeration of writer outputs and of grammar-generated model values with all prefix / single-parenthesis mutations, fed end to end through the real solver pipe",
    text="Every writer output of the C05 space is read back by parse_expr and compared semantically; every command the writer can emit must survive write-read-write; grammar-generated model values (literals, const arrays, store chains, lets) are returned by a scripted reference solver to the real SolverContext::get_value and must be read as the value the strict front end assigns; every proper prefix and single-parenthesis mutation must yield an error or the unchanged value.",
    note="Trusted: smtref strict front end. Leniency that still yields the right value is tolerated."),
+ "C12": dict(level="model_checking", engine="drv-expr", design="§4 C12",
+   technique="explicit-state search over construction histories of a real Context against a shadow map from structural keys to references",
+   text="All sequences of up to 3 (quick) / 4 (thorough) constructor calls over a pool of symbol, literal (by many different computation routes, widths 1..129), operator and string constructors are replayed on a real Context, from empty contexts and from contexts holding 70 000 unrelated insertions; after every call the shadow map checks same key => same reference, different key => different reference, and that every earlier reference still denotes the recorded expression, type and name.",
+   note="Trusted: the shadow map's structural key. Histories longer than 4 calls are not explored."),
+ "C13": dict(level="model_checking", engine="drv-expr", design="§4 C13",
+   technique="term sweep for idempotence/termination plus explicit-state search over orderings of simplify calls on one Simplifier instance (sparse and dense caches)",
+   text="Over the C01 term space every term is simplified twice (idempotence, sparse = dense cache) under a deadline of 100x the slowest normal call (termination); all ordered pairs (thorough: triples) of a pool of sub-term-sharing terms are fed to one Simplifier and each result must be the reference a fresh simplifier returns.",
+   note="Termination is observed as return within a deadline, twice. Terms on which the simplifier panics inside baa (C01 findings) are skipped and counted."),
 }
 
 NOT_YET = {}
